@@ -281,6 +281,10 @@ func resolvePath(basePath *url.URL, componentPath *url.URL) *url.URL {
 	if is_file(componentPath) {
 		// support absolute paths
 		if filepath.IsAbs(componentPath.Path) {
+			if basePath != nil && !is_file(basePath) {
+				// an absolute-path reference found in a remote document stays on that host
+				return basePath.ResolveReference(componentPath)
+			}
 			return componentPath
 		}
 		return join(basePath, componentPath)
